@@ -81,7 +81,7 @@ func runChunks(prefix string, scs []Scenario, outdir string, perfile int) {
 			hi = len(scs)
 		}
 		chunk := scs[k*perfile : hi]
-		if k%3 == 2 && os.Getenv("VERIF_NORM_FIXED") == "" {
+		if k%3 == 2 && os.Getenv("VERIF_NORM_FIXED") == "" && chunk[0].NormKind != "const" {
 			// every third trace file runs with the Bluge-like norm function (a configuration of C01/C02)
 			for i := range chunk {
 				chunk[i].NormKind = "invsqrt"
